@@ -24,11 +24,11 @@ RULE = ('seeded analytic truth motions (|lat|<=85 both hemispheres, speed <=300 
         '{100, 50, 20} ms and h/2, each through the three input forms x two sensor types; bodies at rest at random lat / alt / attitude '
         'for h in 100..5 ms; generate_sine_velocity_motion over its parameter space; non-trivial = moving or tilted or not at lat 55 '
         '(the existing tests: one stationary point, one gentle planar motion); distinct = generator parameters'
-        ' Round 5: rest records of 60001 samples whose sampling clock drifts by 2 ppm (neighbouring intervals 3e-13 s apart).')
+        ' Round 5: rest records of 60001 samples whose sampling clock drifts by 2 ppm (neighbouring intervals 3e-13 s apart). Round 6: an eighth of the motions sit on the antimeridian at half time and are handed over with the longitude column wrapped into (-180, 180].')
 ASSUMPTIONS = ['accelerometer floor 100 eps R / h^2: the readings come from a spline second derivative of a 6.4e6 m vector (measured at rest: '
                '~20 eps R / h^2)', 'samples within 12 knots of either end carry spline end-condition error (decays ~0.27 per knot) and are '
                'checked with the shrink test only', 'for increment type the duplicated first sample is not compared']
-REQUIRED_OBS = ['rest_slow_clock_drift', 'stamps_not_from_zero', 'rest_stamps_not_from_zero', 'rest_stamps_irregular', 'long_closed_paths', 'closed_latitude_paths', 'accel_increment_order_checked', 'increment_order_checked', 'reading_ladders', 'trajectory_ladders', 'inversion_ladders', 'at_rest_checked', 'sine_motion_checked', 'forms_compared',
+REQUIRED_OBS = ['antimeridian_crossings_with_wrapped_longitude', 'rest_slow_clock_drift', 'stamps_not_from_zero', 'rest_stamps_not_from_zero', 'rest_stamps_irregular', 'long_closed_paths', 'closed_latitude_paths', 'accel_increment_order_checked', 'increment_order_checked', 'reading_ladders', 'trajectory_ladders', 'inversion_ladders', 'at_rest_checked', 'sine_motion_checked', 'forms_compared',
                 'readings_above_floor']
 REQUIRED_CLASSES = {'all': ['motion', 'rest', 'sine', 'long_closed']}
 EPS = np.finfo(float).eps
@@ -101,6 +101,11 @@ def run_motion(case, out, obs):
     closed = bool(case['seed'] % 4 == 3)           # a quarter of the motions return to their starting latitude at the last sample
     m, ex = TM.random_motion(rng, T, aggressive=0.7, closed=closed)
     obs['closed_latitude_paths'] = int(closed)
+    forced_seam = case['seed'] % 8 == 0
+    if forced_seam:
+        # place the track so that it is ON the antimeridian at half time (whatever its speed, it is then handed over with a wrapped longitude)
+        mid = float(m.eval(np.array([T / 2]))['lon'][0])
+        m.p['lon'][0] = float(m.p['lon'][0] + (np.pi * (1 if case['seed'] % 16 == 0 else -1) - mid))
     runs = {}
     # the stamps need not start at zero (a segment of a longer record): the motion is sampled at stamp - t0, only the labels move
     t0 = float(np.random.Generator(np.random.PCG64(case['seed'] + 31)).choice([0.0, 0.0, 120.0, 777.25]))
@@ -111,6 +116,13 @@ def run_motion(case, out, obs):
         tt = stamps - t0
         tr = m.trajectory(tt)
         lla, rph, vel = tr[LLA].values, tr[RPH].values, tr[VEL].values
+        if (lla[:, 1].max() > 180.0 or lla[:, 1].min() < -180.0) and (case['seed'] % 2 == 0 or forced_seam):
+            # Round 6: a track across the antimeridian handed over with its longitude column in the conventional range (-180, 180] - the same
+            # smooth motion, a 360-degree jump in one column (differences to the truth are taken modulo 360 everywhere below)
+            lla = lla.copy()
+            lla[:, 1] = -((-lla[:, 1] + 180.0) % 360.0 - 180.0)
+            if k == 0:
+                obs['antimeridian_crossings_with_wrapped_longitude'] = 1
         for form, (a, b) in {'pos+vel': (lla, vel), 'pos': (lla, None), 'init+vel': (lla[0].copy(), vel)}.items():
             for st in ('rate', 'increment'):
                 rt, imu = sim.generate_imu(stamps, a, rph, b, sensor_type=st)
